@@ -8,6 +8,7 @@ literal/variable shape; the proof needs that no two *matching* roots score equal
 one literal), recorded below with a `decide`d witness.
 -/
 import Restful.Lemmas.Order
+import Restful.Lemmas.OrderJsr
 namespace Restful
 namespace Props
 variable (E : ReEnv)
@@ -61,6 +62,44 @@ theorem C03_curly_order_partial (cfg cfg' : Config) (hk : cfg.router = .curly) (
   unfold route routeTagged
   rw [hk, hk']
   exact Restful.C03_curly_order E cfg cfg' hperm (Spec.distinctMethodPath_of_B hd) req (Spec.scoresSeparate_of_B hs)
+
+/-! ### RouterJSR311: route level, and literal root paths -/
+
+/-- RouterJSR311 never selects a route with fewer literal characters than another matching,
+    eligible route of the dispatched service; on structured templates: never a less specific one -/
+theorem C03_jsr_never_less_specific (cfg : Config) (hk : cfg.router = .jsr) (req : Req) (s r : Nat) (ps : Params)
+    (h : route E cfg req = .selected s r ps) :
+    ∃ svc ∈ cfg.services, ∃ rt ∈ svc.built, svc.id = s ∧ rt.id = r ∧ ∃ final wex wc, Jsr.compile svc.rootPath = some wex ∧
+      Jsr.matchExpr E wex.toks req.path = some (wc, final) ∧
+      ∀ rt' ∈ svc.built, ∀ ts ts', readToks (Spec.nonEmptyToks rt.relPath) = some ts →
+        readToks (Spec.nonEmptyToks rt'.relPath) = some ts' →
+        (∀ t ∈ ts, Spec.tokJsrOK t = true) → (∀ t ∈ ts', Spec.tokJsrOK t = true) →
+        ∀ caps' f', Jsr.matchExpr E (ts'.map Jsr.ofTTok) final = some (caps', f') → (f' = [] ∨ f' = ['/']) →
+        Spec.eligible rt' req = true → Spec.moreSpecific ts' ts = false := by
+  unfold route routeTagged at h
+  rw [hk] at h
+  exact Restful.C03_jsr_never_less_specific' E cfg req s r ps h
+
+/-- among literal root paths the longest matching one is dispatched to -/
+theorem C03_jsr_literal_root_longest (svcs : List Service) (path : Str) (svc : Service) (final : Str)
+    (hlit : ∀ s ∈ svcs, ∀ ex, Jsr.compile s.rootPath = some ex → ∀ t ∈ ex.toks, ∃ l, t = .lit l)
+    (h : Jsr.detectDispatcher E svcs path = some (some (svc, final))) :
+    ∀ s' ∈ svcs, ∀ ex' caps' f', Jsr.compile s'.rootPath = some ex' → Jsr.matchExpr E ex'.toks path = some (caps', f') →
+      ∀ ex, Jsr.compile svc.rootPath = some ex → ex'.literalCount ≤ ex.literalCount :=
+  Restful.C03_jsr_literal_root_longest E svcs path svc final hlit h
+
+/-- RouterJSR311 with literal, pairwise different root paths: registration order does not matter
+    (full statement: only the property's own exclusions are assumed) -/
+theorem C03_jsr_order (cfg cfg' : Config) (hk : cfg.router = .jsr) (hperm : Spec.CfgPerm cfg cfg')
+    (hd : Spec.distinctMethodPathB cfg = true) (req : Req)
+    (hlit : ∀ s ∈ cfg.services, ∀ ex, Jsr.compile s.rootPath = some ex → ∀ t ∈ ex.toks, ∃ l, t = .lit l)
+    (hdist : cfg.services.Pairwise (fun a b => ∀ exa exb, Jsr.compile a.rootPath = some exa →
+      Jsr.compile b.rootPath = some exb → exa.toks ≠ exb.toks)) :
+    Spec.sameOutcome (route E cfg req) (route E cfg' req) := by
+  have hk' : cfg'.router = .jsr := by rw [← hperm.1]; exact hk
+  unfold route routeTagged
+  rw [hk, hk']
+  exact Restful.C03_jsr_order_distinct E cfg cfg' hperm (Spec.distinctMethodPath_of_B hd) req hlit hdist
 
 /-! ### F05: ten variable root tokens score like one literal -/
 
